@@ -85,7 +85,8 @@ Spec == Init /\ [][Next]_mcvars
 \* generation run: the initial states only (each one is a replay case)
 GenSpec == Init /\ [][FALSE]_mcvars
 
-ScopesQuick    == {[sel |-> "/d", list |-> "default", maxn |-> 3, pairn |-> 0],
+\* pairn = 2: directories that consist ONLY of unservable children (one, and two of them) are part of the quick tier
+ScopesQuick    == {[sel |-> "/d", list |-> "default", maxn |-> 3, pairn |-> 2],
                    [sel |-> "/x.", list |-> "default", maxn |-> 1, pairn |-> 0]}
 ScopesThorough == {[sel |-> "/d", list |-> "default", maxn |-> 4, pairn |-> 4],
                    [sel |-> "/d", list |-> "dir", maxn |-> 3, pairn |-> 3],
